@@ -67,8 +67,8 @@ class ListingMachine(Machine):
     needs_listing = True
 
 
-def run(ctx):
-    chk = Check('C08', ctx)
+def run(ctx, host=None):
+    chk = host.sub('C08') if host is not None else Check('C08', ctx)
     prog, K, E = ctx.prog, ctx.kinds, ctx.effects
     R1 = chk.rule('C08.R1', 'read funnel: a negative answer is based on a query on a session created after the failed loose probe', 2)
     R2 = chk.rule('C08.R2', 'list_all_objects: index snapshot begins after the loose listing, on a refreshed session', 1)
